@@ -130,6 +130,12 @@ def wf_step(E, s):
         lists.append(y.cores)
     ok, res, exc = attempt(E, lambda: f(E, ops, s))
     E.note('returned', ok)
+    if s.get('then_set_core') and ok and isinstance(res, E.tt.TT):
+        # history: the result is changed in place afterwards (a core with other mode sizes); whatever the result shares with the
+        # operands (size lists, core lists) would make them inconsistent
+        r0, r1 = res.R[0], res.R[1]
+        nc = [r0, E.dim('tm', 1, B), E.dim('tn', 1, B), r1] if res.is_ttm else [r0, E.dim('tn', 1, B), r1]
+        res.set_core(0, E.stensor('tc', nc, E.dtname(res.cores[0])))
     for i, o in enumerate(ops):
         wf(E, 'operand%d' % i, o)
     if ok and isinstance(res, E.tt.TT):
